@@ -12,7 +12,7 @@ use std::collections::{BTreeMap, BTreeSet};
 pub static SPEC: PropSpec = PropSpec {
     id: "C07",
     level: "exploration",
-    rule: "programs: 16 Self-position programs and a generic + instance-specific inherent block pair in both declaration orders (executed against expected output); a library of 25 generic functions / methods (values built inside the generic body at a type mentioning the parameter - array literal, Ref cell, Vec pushes, closure literal -, functions whose type parameter occurs only inside a type application with concrete co-arguments, a generic struct whose fields apply other generic types to its own parameter built and taken apart at generic-application arguments, identity, pairs, swaps, apply, callbacks whose result type occurs only in the callback's return type, containers Vec / Ref / array / Opt[T] / Box[T], bounded generics through trait bounds, generics calling generics at composed types, bounded recursion) instantiated in `main` at type tuples drawn from 14 concrete types (all integer widths used, bool, string, unit, tuples, arrays, Vec, Ref, structs, enums, generic instances, function types), plus randomly generated generic-heavy programs; each program is (1) executed and compared with refsem (generics by substitution), (2) monitored after mono: no duplicate function names, no type-parameter residue in Mono/Lift/ANF or in the Go text, and at least one Mono function per distinct (generic function, type tuple) used. distinct / non-trivial = distinct (generic item, type-argument tuple) pairs instantiated",
+    rule: "programs: 16 Self-position programs and a generic + instance-specific inherent block pair in both declaration orders (executed against expected output); a library of 28 generic functions / methods (values built inside the generic body at a type mentioning the parameter - array literal, Ref cell, Vec pushes, closure literal -, functions whose type parameter occurs only inside a type application with concrete co-arguments, a generic struct whose fields apply other generic types to its own parameter built and taken apart at generic-application arguments, identity, pairs, swaps, apply, callbacks whose result type occurs only in the callback's return type, containers Vec / Ref / array / Opt[T] / Box[T], bounded generics through trait bounds, generics calling generics at composed types, bounded recursion) instantiated in `main` at type tuples drawn from 14 concrete types (all integer widths used, bool, string, unit, tuples, arrays, Vec, Ref, structs, enums, generic instances, function types), plus randomly generated generic-heavy programs; each program is (1) executed and compared with refsem (generics by substitution), (2) monitored after mono: no duplicate function names, no type-parameter residue in Mono/Lift/ANF or in the Go text, and at least one Mono function per distinct (generic function, type tuple) used. distinct / non-trivial = distinct (generic item, type-argument tuple) pairs instantiated",
     eval_counter: "instantiations",
     assumptions: &["relative to refsem (generics by substitution) and gomini; instance counting is a lower bound (statically reachable instances may exceed dynamically used ones)"],
     crash_is_violation: false,
@@ -72,6 +72,8 @@ fn library() -> Lib {
     let structs = vec![
         StructDecl { name: "Pt".into(), tparams: vec![], fields: vec![("x".into(), I32), ("y".into(), Ty::Bool)], derives: vec![] },
         StructDecl { name: "Bx".into(), tparams: vec!["A".into()], fields: vec![("v".into(), tp("A")), ("n".into(), I32)], derives: vec![] },
+        // two parameters: generic functions below name their own parameters like these, at other positions
+        StructDecl { name: "Pr".into(), tparams: vec!["A".into(), "B".into()], fields: vec![("first".into(), tp("A")), ("second".into(), tp("B"))], derives: vec![] },
         // a generic struct whose field applies another generic type to its own parameter
         StructDecl { name: "Wr".into(), tparams: vec!["A".into()], fields: vec![("inner".into(), boxt(tp("A"))), ("tag".into(), I32), ("alt".into(), opt(boxt(tp("A"))))], derives: vec![] },
     ];
@@ -219,6 +221,24 @@ fn library() -> Lib {
         vec![("a", t.clone()), ("b", t.clone())],
         t.clone(),
         blk(vec![Stmt::Let(Pat::Var("keep".into()), None, Expr::Closure { params: vec![("ignored".into(), Some(t.clone()))], body: Box::new(var("a")) })], Expr::CallValue(Box::new(var("keep")), vec![var("b")])),
+    )));
+    // field access on a two-parameter generic struct inside functions whose own parameter is named like the struct's
+    // LATER parameter and passed at an EARLIER position (`Pr[B, int32]`, `Pr[B, A]`): simultaneous substitution
+    let pr = |a: Ty, b: Ty| Ty::Struct("Pr".into(), vec![a, b]);
+    items.push(Item::Fn(fnd("firstb", &[("B", &[])], vec![("p", pr(tp("B"), I32))], tp("B"), blk(vec![], Expr::Field(Box::new(var("p")), "first".into())))));
+    items.push(Item::Fn(fnd(
+        "flipba",
+        &[("B", &[]), ("A", &[])],
+        vec![("p", pr(tp("B"), tp("A")))],
+        pr(tp("A"), tp("B")),
+        blk(vec![], Expr::StructLit { name: "Pr".into(), ty: pr(tp("A"), tp("B")), fields: vec![("first".into(), Expr::Field(Box::new(var("p")), "second".into())), ("second".into(), Expr::Field(Box::new(var("p")), "first".into()))] }),
+    )));
+    items.push(Item::Fn(fnd(
+        "idfirstb",
+        &[("B", &[])],
+        vec![("p", pr(tp("B"), Ty::Str))],
+        tp("B"),
+        blk(vec![], Expr::Call { name: "idg".into(), targs: vec![("T".into(), tp("B"))], args: vec![Expr::Field(Box::new(var("p")), "first".into())] }),
     )));
     // bounded recursion at the same instance
     items.push(Item::Fn(fnd(
@@ -387,7 +407,7 @@ fn gen_calls(g: &mut Gen, n: usize) -> Vec<Call> {
         let t = g.rng.pick_ref(&pool).clone();
         let u = g.rng.pick_ref(&pool).clone();
         let val = |g: &mut Gen, ty: &Ty| g.gen_expr(ty, 1, &[]);
-        let which = g.rng.below(30);
+        let which = g.rng.below(33);
         let c = match which {
             0 => Call { name: "idg", targs: vec![("T".into(), t.clone())], args: vec![val(g, &t)], ret: t.clone() },
             1 => Call { name: "pairg", targs: vec![("T".into(), t.clone()), ("U".into(), u.clone())], args: vec![val(g, &t), val(g, &u)], ret: Ty::Tuple(vec![t.clone(), u.clone()]) },
@@ -436,6 +456,9 @@ fn gen_calls(g: &mut Gen, n: usize) -> Vec<Call> {
             27 => Call { name: "cellg", targs: vec![("T".into(), t.clone())], args: vec![val(g, &t), val(g, &t)], ret: t.clone() },
             28 => Call { name: "vec2g", targs: vec![("T".into(), t.clone())], args: vec![val(g, &t), val(g, &t)], ret: Ty::Vec(Box::new(t.clone())) },
             29 => Call { name: "constg", targs: vec![("T".into(), t.clone())], args: vec![val(g, &t), val(g, &t)], ret: t.clone() },
+            30 => Call { name: "firstb", targs: vec![("B".into(), t.clone())], args: vec![val(g, &Ty::Struct("Pr".into(), vec![t.clone(), I32]))], ret: t.clone() },
+            31 => Call { name: "flipba", targs: vec![("B".into(), t.clone()), ("A".into(), u.clone())], args: vec![val(g, &Ty::Struct("Pr".into(), vec![t.clone(), u.clone()]))], ret: Ty::Struct("Pr".into(), vec![u.clone(), t.clone()]) },
+            32 => Call { name: "idfirstb", targs: vec![("B".into(), t.clone())], args: vec![val(g, &Ty::Struct("Pr".into(), vec![t.clone(), Ty::Str]))], ret: t.clone() },
             19 | 20 => Call { name: "unwrg", targs: vec![("T".into(), t.clone())], args: vec![Expr::Call { name: "mkwrg".into(), targs: vec![("T".into(), t.clone())], args: vec![val(g, &t)] }], ret: t.clone() },
             _ => {
                 let a = g.rng.pick_ref(&showable).clone();
